@@ -339,7 +339,7 @@ func (ce *CEnv) selectField(base Val, name string) (Val, error) {
 				cur = Val{T: types.NewPointer(f.Type()), C: []*Term{lv.Ref}, LV: nl}
 				continue
 			}
-			cur = ce.x.reattachInterior(ce.x.loadWF(ce.st, nl))
+			cur = ce.x.reattachInterior(ce.st, ce.x.loadWF(ce.st, nl))
 			continue
 		}
 		if _, isStruct := cur.T.Underlying().(*types.Struct); isStruct {
